@@ -137,8 +137,8 @@ func (su *suite) buildForkFamily(dir string, thorough bool) (*forkFamily, error)
 		{"A4", pUnder, dagx.Chain, uint32(pUnder) + 150 + j()},
 		{"B4", pUnder, dagx.Chain, 2*ps + 6 + j()}, // alone decodable on pages 0-1, together with A4's branch not
 		{"A5", pOver, dagx.Chain, max(uint32(pOver)+170, ps+10) + j()},
-		{"B5", pOver, dagx.Chain, 2*ps + 6 + j()},    // alone just more than one IBLT decodes on pages 0-1
-		{"B6", 330, dagx.Diamond, 2*ps + 8 + j()}, // wide, page 2
+		{"B5", pOver, dagx.Chain, 2*ps + 6 + j()},  // alone just more than one IBLT decodes on pages 0-1
+		{"B7", pUnder, dagx.Chain, 3*ps + 4 + j()}, // page 3; against B4 (page 2): pages 2 and 1 undecodable, page 0 decodable
 	}
 	// quick: the cheaper pairings (a case costs about one State.Add per transaction a node lacks)
 	cases := []forkCase{
@@ -147,11 +147,14 @@ func (su *suite) buildForkFamily(dir string, thorough bool) (*forkFamily, error)
 		{[]string{"A2", "B3"}, "pair", "chaotic"}, // only the root in common, wide branch behind
 		{[]string{"A4", "B4"}, "pair", "quiet"},   // peer's part alone decodable, the symmetric difference not
 		{[]string{"B5", "A5"}, "pair", "quiet"},   // peer's part alone just beyond the capacity, node 0 ahead
-		{[]string{"A1", "B6"}, "pair", "lossy"},   // wide branch ahead
+		{[]string{"B4", "B7"}, "pair", "lossy"},   // behind on page 2: the walk down takes more than one step
 		{[]string{"A5", "B5", "root"}, "line", "quiet"},
 	}
 	if thorough {
 		specs = append(specs,
+			sideSpec{"B6", 330, dagx.Diamond, 2*ps + 8 + j()}, // wide, page 2
+			sideSpec{"C8", 600, dagx.Chain, 2*ps + 100 + j()}, // common prefix beyond page 0: the walk down ends on identical pages
+			sideSpec{"C9", 600, dagx.Chain, 3*ps + 10 + j()},
 			sideSpec{"C1", 40, dagx.Chain, 2*ps - 1},  // last clock of page 1 (against B3: ahead by one clock value, one page)
 			sideSpec{"C2", 180, dagx.Chain, 3*ps - 1}, // last clock of page 2
 			sideSpec{"C3", 180, dagx.Chain, 3 * ps},   // first clock of page 3
@@ -161,6 +164,7 @@ func (su *suite) buildForkFamily(dir string, thorough bool) (*forkFamily, error)
 			sideSpec{"C7", 444, dagx.Chain, 2*ps + 300 + j()},
 		)
 		cases = append(cases,
+			forkCase{[]string{"A1", "B6"}, "pair", "lossy"}, forkCase{[]string{"C8", "C9"}, "pair", "quiet"}, forkCase{[]string{"C9", "C8", "A4"}, "", ""},
 			forkCase{[]string{"B1", "A1"}, "pair", "lossy"}, forkCase{[]string{"B6", "B1"}, "pair", "chaotic"},
 			forkCase{[]string{"A1", "B1", "root"}, "line", "quiet"}, forkCase{[]string{"A2", "B3", "B6"}, "triangle", ""},
 			forkCase{[]string{"A3", "B3", "A5"}, "triangle", "quiet"},
